@@ -37,17 +37,18 @@ let mismatch line what =
   incr mism; if !mism <= 5000 then print_endline ("MISMATCH\t" ^ what ^ "\t" ^ line)
 
 type rpc = { rstart : n list; rend : n list; rqs : n list; rqe : n list; limit : int;
-             locked : n list list; resp : n list list; ok : bool }
+             locked : n list list; resp : n list list; ok : bool; retry : bool }
 let parse_trace s =
   List.map (fun e -> match String.split_on_char '|' e with
     | [a; b; c; d; l; lk; rs; st] ->
         { rstart = bytes_of_hex a; rend = bytes_of_hex b; rqs = bytes_of_hex c; rqe = bytes_of_hex d;
-          limit = int_of_string l; locked = keys_of lk; resp = keys_of rs; ok = (st = "ok") }
+          limit = int_of_string l; locked = keys_of lk; resp = keys_of rs; ok = (st = "ok" || st = "resplock"); retry = (st = "resplock") }
     | _ -> failwith ("bad trace " ^ e)) (split_on ';' s)
 
 let is_pref p s = String.length s >= String.length p && String.sub s 0 (String.length p) = p
 
 (* replay the scanner model against the recorded RPCs; returns (problem option, model output) *)
+let retries = ref 0
 let replay_scan t ts lo hi batch ko rev trace =
   let b = norm_batch (nat_of_int batch) in
   let c = ref (init_cursor lo hi rev) in
@@ -66,6 +67,7 @@ let replay_scan t ts lo hi batch ko rev trace =
         else if rs <> r.rqs || re <> r.rqe then
           fail (Printf.sprintf "rpc %d: request model=[%s,%s)" i (hex_of_bytes rs) (hex_of_bytes re))
         else if int_of_nat b <> r.limit then fail (Printf.sprintf "rpc %d: limit" i)
+        else if r.retry then incr retries   (* response-level lock error: same request again, cursor unchanged *)
         else match get_data b layout rws !c with
           | GDPanic -> if r.ok then fail (Printf.sprintf "rpc %d: model panics, implementation served" i) else panicked := true
           | GD (ps, c') ->
@@ -213,5 +215,6 @@ let handle line =
 
 let () =
   read_lines (fun line -> try handle line with e -> mismatch line ("model-exception " ^ Printexc.to_string e));
+  Printf.printf "COUNT\tSCAN-RETRIES-REPLAYED\t%d\n" !retries;
   Printf.printf "STATS\tcases=%d\tmismatches=%d\tprops=%d\tpropfails=%d\tdistinct=%d\n" !n !mism !pn !pfail (Hashtbl.length distinct);
   Hashtbl.iter (fun k v -> Printf.printf "COUNT\t%s\t%d\n" k v) counts
